@@ -8,7 +8,7 @@ T = |x| * 10^(prec-p) for prec >= p, T = |Rnd[thread](x / 10^(p-prec))| for prec
 NOT decided: core::fmt's rendering of the template "{}.{:0width$}" and of pad_integral (width, fill, alignment, '+', '0' flags).
 """
 from ..absint import Interp, Opts, ByRef, Agg, Int, K, Opaque, SliceVal, ZERO, NEG, POS, NONNEG, NONPOS
-from ..harness import (M, SCALES_ALL, dec_val, poly_eq, show_outcome, show_poly, show_value, get_db, run_jobs, notes_of)
+from ..harness import (dec_coeff, M, SCALES_ALL, dec_val, poly_eq, show_outcome, show_poly, show_value, get_db, run_jobs, notes_of)
 from ..db import span_str
 from ..poly import padd, pscale, pconst, pmul, pneg
 from ..rules import taint
@@ -37,7 +37,7 @@ def run_job(job):
     I = Interp(db, opts)
     st = I.new_state()
     d = dec_val(st, 'x', p)
-    X = d.fields[0].p
+    X = dec_coeff(d).p
     I.call_root(st, fn, [ByRef(d), ByRef(Opaque('core::fmt::Formatter', 'form'))])
     outs = I.explore(st)
     prec = p if P is None else min(P, 18)
@@ -78,7 +78,7 @@ def run_job(job):
             if kinds != ['fmtarg:display', 'fmtarg:display', 'fmtarg:usize']:
                 bad.append('expected arguments [int, frac, width], found %s' % kinds)
                 continue
-            Iv, Fv, Wv = [a.fields[0] for a in fargs]
+            Iv, Fv, Wv = [fa.fields[0] for fa in fargs]
             if not (isinstance(Wv, Int) and s.itv(Wv) == (prec, prec)):
                 bad.append('zero-padding width %s, expected %d' % (show_value(s, Wv), prec))
             Tp = padd(pscale(Iv.p, 10 ** prec), Fv.p)
